@@ -35,6 +35,15 @@ func arityScenario(tuple []ct.Comp, depth int) *engine.Scenario {
 		}
 	}
 	hasX := x < ct.NumComps
+	// Y: a second non-relation component outside the tuple
+	y := ct.Comp(ct.NumComps)
+	for _, c := range []ct.Comp{ct.T10, ct.T11, ct.T8, ct.Q} {
+		if !cs.Has(c) && c != x {
+			y = c
+			break
+		}
+	}
+	hasY := hasX && y < ct.NumComps
 	canEx := n <= 8 && instantiated(api.ExchangeTuples, tuple)
 	canFilter := n <= 8 && instantiated(api.FilterTuples, tuple)
 	canObs := n <= 4 && instantiated(api.ObserverTuples, tuple)
@@ -78,6 +87,17 @@ func arityScenario(tuple []ct.Comp, depth int) *engine.Scenario {
 	}
 	if len(relc) > 0 {
 		obs = append(obs, model.ObsSpec{Event: model.EvAddRelations}, model.ObsSpec{Event: model.EvRemoveRelations})
+		// filtered relation observers: the typed variants must pass the same old/new masks as the ID-based API
+		obs = append(obs, model.ObsSpec{Event: model.EvAddRelations, For: ct.Of(relc[0])}, model.ObsSpec{Event: model.EvRemoveRelations, For: ct.Of(relc[len(relc)-1])})
+		for _, c := range tuple {
+			if !cs.Rels().Has(c) {
+				obs = append(obs, model.ObsSpec{Event: model.EvAddRelations, With: ct.Of(c)}, model.ObsSpec{Event: model.EvRemoveRelations, With: ct.Of(c)})
+				break
+			}
+		}
+		if hasX {
+			obs = append(obs, model.ObsSpec{Event: model.EvAddRelations, Without: ct.Of(x)})
+		}
 	}
 	for i := range obs {
 		pre = append(pre, model.Op{K: model.OpObserve, O: i})
@@ -91,6 +111,20 @@ func arityScenario(tuple []ct.Comp, depth int) *engine.Scenario {
 		}
 		return out
 	}
+	relsOf := func(set ct.Set, t int) []model.RelT {
+		var out []model.RelT
+		for _, c := range relc {
+			if set.Has(c) {
+				out = append(out, model.RelT{C: c, T: t})
+			}
+		}
+		return out
+	}
+	// typed observers of arity >= 2: transitions that affect a strict subset of the observed components
+	// (everything but the last one) must not fire them
+	partial := canObs && n >= 2
+	last := tuple[n-1]
+	sub := cs &^ ct.Of(last)
 	alpha := func(m *model.Model) []model.Op {
 		var ops []model.Op
 		al := m.Alive()
@@ -110,6 +144,12 @@ func arityScenario(tuple []ct.Comp, depth int) *engine.Scenario {
 				if y := ct.T10; !cs.Has(y) && y != x {
 					ops = append(ops, model.Op{K: model.OpAdd, Path: model.PathUnsafe, E: 0, Cs: ct.Of(y)})
 				}
+				if hasY && canEx {
+					ops = append(ops, model.Op{K: model.OpNew, Path: model.PathUnsafe, Cs: ct.Of(x, y)})
+				}
+			}
+			if partial {
+				ops = append(ops, model.Op{K: model.OpNew, Path: model.PathUnsafe, Cs: ct.Of(last), T: relsOf(ct.Of(last), tgt)})
 			}
 		}
 		k := 0
@@ -121,10 +161,22 @@ func arityScenario(tuple []ct.Comp, depth int) *engine.Scenario {
 				ops = append(ops, model.Op{K: model.OpAdd, Path: model.PathMapN, E: e, Cs: cs, Ord: tuple, Init: in, T: relsTo(tgt)})
 				if canEx {
 					ops = append(ops, model.Op{K: model.OpAdd, Path: model.PathExchange, E: e, Cs: cs, Ord: tuple, Init: model.InitFn, T: relsTo(model.ZeroTarget)})
+					if len(relc) > 0 && tgt == 0 {
+						// the same (cached) ExchangeN instance is used with changing targets
+						ops = append(ops, model.Op{K: model.OpAdd, Path: model.PathExchange, E: e, Cs: cs, Ord: tuple, Init: model.InitFn, T: relsTo(tgt)})
+					}
 					if hasX && c.Has(x) {
-						ops = append(ops, model.Op{K: model.OpExchange, Path: model.PathExchange, E: e, Cs: cs, Ord: tuple, Rm: ct.Of(x), Init: []model.Init{model.InitValue, model.InitFn}[k%2], T: relsTo(tgt)})
+						if hasY && c.Has(y) {
+							// two removed components (given in two chained Removes calls)
+							ops = append(ops, model.Op{K: model.OpExchange, Path: model.PathExchange, E: e, Cs: cs, Ord: tuple, Rm: ct.Of(x, y), Init: []model.Init{model.InitValue, model.InitFn}[k%2], T: relsTo(tgt)})
+						} else {
+							ops = append(ops, model.Op{K: model.OpExchange, Path: model.PathExchange, E: e, Cs: cs, Ord: tuple, Rm: ct.Of(x), Init: []model.Init{model.InitValue, model.InitFn}[k%2], T: relsTo(tgt)})
+						}
 					}
 				}
+			}
+			if partial && c&cs == ct.Of(last) {
+				ops = append(ops, model.Op{K: model.OpAdd, Path: model.PathUnsafe, E: e, Cs: sub, T: relsOf(sub, tgt)})
 			}
 			if c&cs == cs {
 				ops = append(ops,
@@ -132,6 +184,9 @@ func arityScenario(tuple []ct.Comp, depth int) *engine.Scenario {
 					model.Op{K: model.OpWrite, Path: model.PathMapN, E: e, Cs: cs, Ord: tuple},
 					model.Op{K: model.OpRemove, Path: model.PathMapN, E: e, Rm: cs, Ord: tuple},
 				)
+				if partial {
+					ops = append(ops, model.Op{K: model.OpRemove, Path: model.PathUnsafe, E: e, Rm: sub})
+				}
 				if len(relc) > 0 && e != 0 {
 					nt := model.ZeroTarget
 					if m.Ents[e].Tgt[relc[0]] == model.ZeroTarget && tgt == 0 {
@@ -141,9 +196,7 @@ func arityScenario(tuple []ct.Comp, depth int) *engine.Scenario {
 					ops = append(ops, model.Op{K: model.OpSetRel, Path: model.PathMapN, E: e, Ord: tuple, T: relsTo(nt)})
 				}
 			}
-			if e != 0 || len(relc) == 0 {
-				ops = append(ops, model.Op{K: model.OpRemoveEntity, E: e})
-			}
+			ops = append(ops, model.Op{K: model.OpRemoveEntity, E: e})
 		}
 		// batch forms
 		ops = append(ops,
@@ -181,14 +234,20 @@ func arityScenario(tuple []ct.Comp, depth int) *engine.Scenario {
 		return validOnly(m, ops)
 	}
 	preludes := [][]model.Op{pre}
-	if canFilter && len(relc) > 0 {
+	if (canFilter || canEx) && len(relc) > 0 {
 		// children of #0 and of the zero entity, and one Batch(rel...) call on the filter beforehand
 		p2 := append([]model.Op{}, pre...)
-		p2 = append(p2,
-			model.Op{K: model.OpNew, Path: model.PathMapN, Cs: cs, Ord: tuple, T: relsTo(0)},
-			model.Op{K: model.OpNew, Path: model.PathMapN, Cs: cs, Ord: tuple, T: relsTo(model.ZeroTarget)},
-			model.Op{K: model.OpSetRelBatch, Path: model.PathMapN, F: 1, Ord: tuple, QT: rel(relc[0], 0), T: rel(relc[0], 0)},
-		)
+		if canEx {
+			// the child of #0 is made through the (cached, later re-used) ExchangeN instance
+			p2 = append(p2, model.Op{K: model.OpNewPlain},
+				model.Op{K: model.OpAdd, Path: model.PathExchange, E: 1, Cs: cs, Ord: tuple, Init: model.InitFn, T: relsTo(0)})
+		} else {
+			p2 = append(p2, model.Op{K: model.OpNew, Path: model.PathMapN, Cs: cs, Ord: tuple, T: relsTo(0)})
+		}
+		p2 = append(p2, model.Op{K: model.OpNew, Path: model.PathMapN, Cs: cs, Ord: tuple, T: relsTo(model.ZeroTarget)})
+		if canFilter {
+			p2 = append(p2, model.Op{K: model.OpSetRelBatch, Path: model.PathMapN, F: 1, Ord: tuple, QT: rel(relc[0], 0), T: rel(relc[0], 0)})
+		}
 		preludes = append(preludes, p2)
 	}
 	return &engine.Scenario{
